@@ -123,3 +123,33 @@ def variants(base, field):
         except Exception:  # noqa: BLE001
             continue
         yield new
+
+
+def symbolic_sample_node(cls_name):
+    """Real nodes of class *cls_name* over operands with size-parameter
+    (array-valued) axis lengths, where the public API admits them."""
+    import pytato as pt
+    n = pt.make_size_param("n")
+    a = pt.make_placeholder("a", (n, 3), np.float64)
+    b = pt.make_placeholder("b", (n, 3), np.float64)
+    i = pt.make_placeholder("i", (n,), np.int64)
+    j = pt.make_placeholder("j", (n,), np.int64)
+    c = pt.make_placeholder("c", (4, 3, 4), np.float64)
+    out = {
+        "Placeholder": [a],
+        "IndexLambda": [a + b],
+        "Stack": [pt.stack([a, b], 0)],
+        "Concatenate": [pt.concatenate([a, b], 0)],
+        "Roll": [pt.roll(a, 2, 1)],
+        "AxisPermutation": [pt.transpose(a, (1, 0))],
+        "Reshape": [pt.expand_dims(a, 0)],
+        "BasicIndex": [a[:, 0]],
+        "AdvancedIndexInContiguousAxes": [c[i, 1:]],
+        "AdvancedIndexInNoncontiguousAxes": [c[i, :, j]],
+        "Einsum": [pt.einsum("ij,ij->i", a, b)],
+        "DictOfNamedArrays": [pt.make_dict_of_named_arrays({"x": a, "y": b})],
+        "NamedArray": [pt.make_dict_of_named_arrays({"x": a, "y": b})["x"]],
+    }
+    if cls_name in out:
+        return out[cls_name]
+    return sample_node(cls_name)
